@@ -208,7 +208,10 @@ def _normalisation_note(ctx: "Ctx") -> T.Dict[str, T.Any]:
             "new_constants_inlined": list(normalise.LAST_RUN.get("constants_inlined", [])),
             "local_renames_undone": list(normalise.LAST_RUN.get("local_renames_undone", [])),
             "table_dispatch_expanded": normalise.LAST_RUN.get("dispatch_expanded", 0),
-            "literal_loops_unrolled": normalise.LAST_RUN.get("literal_loops_unrolled", 0)}
+            "literal_loops_unrolled": normalise.LAST_RUN.get("literal_loops_unrolled", 0),
+            "kwargs_splats_expanded": normalise.LAST_RUN.get("kwargs_splats_expanded", 0),
+            "bool_returns_expanded": normalise.LAST_RUN.get("bool_returns_expanded", 0),
+            "accumulated_replace_expanded": normalise.LAST_RUN.get("accumulated_replace_expanded", 0)}
 
 
 def write_evidence(ctx: Ctx, mod: T.Any, wall: float, known_matched: T.List[str], new: T.List[Finding],
